@@ -38,11 +38,12 @@ type C03Plan struct {
 }
 
 var c03Readers = []string{"fasta", "fastq", "bed3", "bed4", "bed5", "bed6", "bed12", "gff", "gff", "gff-notimeformat", "fasta-picky", "fastq-picky",
-	"fastq-solexa", "fastq-illumina1.3", "fastq-illumina1.8", "fasta-idprefix"}
+	"fastq-solexa", "fastq-illumina1.3", "fastq-illumina1.5", "fastq-illumina1.8", "fastq-illumina1.9", "fasta-idprefix", "fasta-qseq"}
 
 // the quality encodings a FASTQ template may declare
 var fastqEncodings = map[string]alphabet.Encoding{
-	"fastq-solexa": alphabet.Solexa, "fastq-illumina1.3": alphabet.Illumina1_3, "fastq-illumina1.8": alphabet.Illumina1_8,
+	"fastq-solexa": alphabet.Solexa, "fastq-illumina1.3": alphabet.Illumina1_3, "fastq-illumina1.5": alphabet.Illumina1_5,
+	"fastq-illumina1.8": alphabet.Illumina1_8, "fastq-illumina1.9": alphabet.Illumina1_9,
 }
 
 // A reader template may refuse a name or a description (the doc comments of
@@ -94,7 +95,10 @@ func openReader(kind string, src io.Reader) (func() (interface{}, error), error)
 	case "fastq":
 		r := fastq.NewReader(src, linear.NewQSeq("", nil, alphabet.DNA, alphabet.Sanger))
 		return func() (interface{}, error) { s, err := r.Read(); return s, err }, nil
-	case "fastq-solexa", "fastq-illumina1.3", "fastq-illumina1.8":
+	case "fasta-qseq":
+		r := fasta.NewReader(src, linear.NewQSeq("", nil, alphabet.DNA, alphabet.Sanger)) // a quality-carrying template
+		return func() (interface{}, error) { s, err := r.Read(); return s, err }, nil
+	case "fastq-solexa", "fastq-illumina1.3", "fastq-illumina1.5", "fastq-illumina1.8", "fastq-illumina1.9":
 		r := fastq.NewReader(src, linear.NewQSeq("", nil, alphabet.DNA, fastqEncodings[kind]))
 		return func() (interface{}, error) { s, err := r.Read(); return s, err }, nil
 	case "fasta-idprefix":
@@ -845,6 +849,7 @@ func hugeC03() []*Case {
 }
 
 func exploreC03(t *testing.T, w *Worker, r *simrt.RNG) {
+	w.Cold(t, genC03Group)
 	if w.unit == 0 {
 		for _, h := range hugeC03() {
 			h := h
